@@ -51,7 +51,8 @@ def bucketInput (secondaryKey : Bool) (ctx : Ctx) (isExperiment : Bool) (seed : 
     | some sc =>
       let v := sc.valueForRef attr
       let r : Except BucketFail LocalBuffer :=
-        match v with
+        -- `IsNull()`, `IsString()`/`StringValue()`, `IsInt()`/`IntValue()` all parse a raw value
+        match v.unraw with
         | .null => .error .attributeNotFound
         | .str s => .ok (buf.appendString s)
         | .num q => if ratIsInt q then .ok (buf.appendInt (goInt q)) else .error .attributeWrongType
